@@ -384,6 +384,11 @@ func init() {
 			// chained filters: a rejected attempt of the inner filter begins where the rejected attempt of the outer one begins
 			"((draw a (filter (filter (u 0 1000) (mod 3 0)) (ge 400))) (draw b (u 0 1000)) (if (mod b 2 1) (fatal 2)) (if (ge a 700) (fatal 1)))",
 			"((draw a (filter (filter (filter (i 0 99) (mod 2 0)) (ge 30)) (lt 90))) (draw b (i 0 99)) (draw c (bool)) (if (ge b 50) (error 1)) (if (lt b 50) (if (ge a 60) (fatal 2))))",
+			// a Custom function that returns without drawing (the base case of a recursive generator): rapid's own assertion
+			// fails the test case — in the generation run, in the reproduce run and in every replay alike
+			"((draw a (i 0 9)) (draw v (custom (emit 5))))",
+			"((draw b (bool)) (draw a (i 0 99)) (if (istrue b) (draw v (custom (emit 7)))) (if (ge a 90) (fatal 1)))",
+			"((draw a (slice (i 0 9) 0 3)) (if (lenge a 2) (draw v (deferred (custom (emit 1))))))",
 		}
 		for i := 0; i < 60*scale; i++ {
 			var prog *SX
